@@ -188,6 +188,7 @@ func (f Finding) Describe() string { return fmt.Sprintf("%s (%s)", f.Key, f.What
 //	KF-3: the file declares a generic type alias (`type A[P any] = T`, accepted by go/parser since
 //	      go1.23): dst orders a TypeSpec's parts Name, '=', TypeParams, Type, so decorations next
 //	      to the '=' or the type parameter list are emitted at the wrong side of the list.
+//	KF-4: commentsAroundComma(src), see there.
 //	KF-1: !oracle.ColumnRobust(src).
 func LayoutClass(src []byte) string {
 	c := layoutClass(src)
@@ -207,8 +208,21 @@ func layoutClass(src []byte) string {
 	if !oracle.ColumnRobust(src) {
 		return "KF-1"
 	}
+	if commentsAroundComma(src) {
+		return "KF-4"
+	}
 	return ""
 }
+
+// commentsAroundComma is the input-only predicate of open finding KF-4: a comment directly in
+// front of a ',' and, directly behind the same ',', a comment that contains a newline (a
+// multi-line /* */ or a // comment). go/ast has no position for the comma, so `a /*c*/,/* m⏎ */b`
+// and `a,/*c*/ /* m⏎ */b` decorate to the same tree; the restorer (like go/parser) makes the two
+// adjacent comments one group, and go/printer prints a group that contains a newline behind the
+// comma: only the second spelling round-trips.
+var commaCommentsRE = regexp.MustCompile(`\*/[ \t]*,[ \t]*(//|/\*[^*\n]*(\*[^/\n][^*\n]*)*\n)`)
+
+func commentsAroundComma(src []byte) bool { return commaCommentsRE.Match(src) }
 
 func abuttingBlockComment(src []byte) bool {
 	s := string(src)
